@@ -185,8 +185,12 @@ impl<R: RefCounter, PR: PathRefCounter, H: Header> Memory<R, PR, H> {
         }
 
         let current_file_size = file.metadata()?.len();
-        if current_file_size < opts.offset + size as u64 {
-          file.set_len(opts.offset + size as u64)?;
+        let end = opts
+          .offset
+          .checked_add(size as u64)
+          .ok_or_else(|| invalid_input("the end of the memory map overflows u64"))?;
+        if current_file_size < end {
+          file.set_len(end)?;
         }
 
         let mut mmap = mmap_mut(opts.with_capacity(size as u32).to_mmap_options(), file)?;
@@ -393,8 +397,12 @@ impl<R: RefCounter, PR: PathRefCounter, H: Header> Memory<R, PR, H> {
     }
 
     if let Some(cap) = opts.capacity {
-      if file_size < opts.offset + cap as u64 {
-        file.set_len(opts.offset + cap as u64)?;
+      let end = opts
+        .offset
+        .checked_add(cap as u64)
+        .ok_or_else(|| invalid_input("the end of the memory map overflows u64"))?;
+      if file_size < end {
+        file.set_len(end)?;
       }
     }
 
